@@ -426,6 +426,299 @@ theorem fuelLe {cfg : Cfg} {n m : Nat} (h : n ≤ m) : FuelLe n m cfg := by
     | zero => omega
     | succ m => exact fuelLe_succ (ih (by omega))
 
+/-! ### simulation, direction reference (tco off) ⟶ optimised (tco on), same fuel -/
+
+/-- the two configurations C07 compares: no limits; the optimisation on / off -/
+def cT : Cfg := { tco := true }
+def cF : Cfg := { tco := false }
+
+@[simp] theorem cT_tco : cT.tco = true := rfl
+@[simp] theorem cF_tco : cF.tco = false := rfl
+@[simp] theorem cT_depth : cT.depthLimit = none := rfl
+@[simp] theorem cF_depth : cF.depthLimit = none := rfl
+@[simp] theorem cT_call : cT.callLimit = none := rfl
+@[simp] theorem cF_call : cF.callLimit = none := rfl
+@[simp] theorem cT_rec : cT.recLimit = none := rfl
+@[simp] theorem cF_rec : cF.recLimit = none := rfl
+
+def Frame.atHeight (fr : Frame) (h : Nat) : Frame := { fr with height := h }
+
+@[simp] theorem Frame.atHeight_env (fr : Frame) (h) : (fr.atHeight h).env = fr.env := rfl
+@[simp] theorem Frame.atHeight_self (fr : Frame) (h) : (fr.atHeight h).self = fr.self := rfl
+@[simp] theorem Frame.atHeight_height (fr : Frame) (h) : (fr.atHeight h).height = h := rfl
+@[simp] theorem Frame.atHeight_get (fr : Frame) (h x) : (fr.atHeight h).get x = fr.get x := rfl
+@[simp] theorem Frame.atHeight_cons (fr : Frame) (h p) :
+    ({ fr.atHeight h with env := p :: fr.env } : Frame) = ({ fr with env := p :: fr.env } : Frame).atHeight h := rfl
+
+/-- the recursion cell of a frame holds a closure (what `from_template` puts there) -/
+def FrameOk (fr : Frame) : Prop := ∀ name c, fr.self = some (name, c) → ∃ f d e, c = .clos f d e
+
+theorem FrameOk.cons {fr : Frame} (h : FrameOk fr) (p) : FrameOk { fr with env := p :: fr.env } := h
+
+def setH (h : Nat) : Except Res Frame × St → Except Res Frame × St
+  | (.ok f, s) => (.ok (f.atHeight h), s)
+  | (.error r, s) => (.error r, s)
+
+@[simp] theorem setH_ok (h f s) : setH h (.ok f, s) = (.ok (f.atHeight h), s) := rfl
+@[simp] theorem setH_error (h r s) : setH h (.error r, s) = (.error r, s) := rfl
+
+/-- the optimised run handed a tail call back where the reference run made the call: the reference
+result is that of the trampoline started on the same arguments, with less fuel -/
+def TailCase (n : Nat) (fr : Frame) (resT resF : Res × St) : Prop :=
+  ∃ name c args st1, fr.self = some (name, c) ∧ resT = (.tail args, st1) ∧
+    ∃ k, k < n ∧ tramp k cF fr.height c args 0 st1 = resF
+
+def SimRes (n : Nat) (fr : Frame) (tail : Bool) (resT resF : Res × St) : Prop :=
+  resT = resF ∨ (tail = true ∧ TailCase n fr resT resF)
+
+@[simp] theorem SimRes.refl (n fr tail x) : SimRes n fr tail x x := .inl rfl
+
+theorem SimRes.lift {n fr tail a b} (h : SimRes n fr tail a b) : SimRes (n + 1) fr tail a b := by
+  rcases h with h | ⟨ht, name, c, args, st1, h1, h2, k, hk, h3⟩
+  · exact .inl h
+  · exact .inr ⟨ht, name, c, args, st1, h1, h2, k, by omega, h3⟩
+
+theorem SimRes.eq_of_false {n fr a b} (h : SimRes n fr false a b) : a = b := by
+  rcases h with h | ⟨ht, _⟩
+  · exact h
+  · cases ht
+
+structure SimAt (n : Nat) : Prop where
+  eval : ∀ fr h2 e tail st, FrameOk fr → (eval n cF fr e tail st).1.isOof = false →
+    SimRes n fr tail (eval n cT (fr.atHeight h2) e tail st) (eval n cF fr e tail st)
+  callNamed : ∀ fr h2 f args tail st, FrameOk fr → (callNamed n cF fr f args tail st).1.isOof = false →
+    SimRes n fr tail (callNamed n cT (fr.atHeight h2) f args tail st) (callNamed n cF fr f args tail st)
+  builtin : ∀ fr h2 f args tail st, FrameOk fr → (builtin n cF fr f args tail st).1.isOof = false →
+    SimRes n fr tail (builtin n cT (fr.atHeight h2) f args tail st) (builtin n cF fr f args tail st)
+  callVal : ∀ fr h2 c args tail st, FrameOk fr → (callVal n cF fr c args tail st).1.isOof = false →
+    callVal n cT (fr.atHeight h2) c args tail st = callVal n cF fr c args tail st
+  evalList : ∀ fr h2 es st, FrameOk fr → exOof (evalList n cF fr es st).1 = false →
+    evalList n cT (fr.atHeight h2) es st = evalList n cF fr es st
+  mkClos : ∀ fr h2 f st, FrameOk fr → (mkClos n cF fr f st).1.isOof = false →
+    mkClos n cT (fr.atHeight h2) f st = mkClos n cF fr f st
+  evalDflts : ∀ fr h2 ps st, FrameOk fr → exOof (evalDflts n cF fr ps st).1 = false →
+    evalDflts n cT (fr.atHeight h2) ps st = evalDflts n cF fr ps st
+  callUser : ∀ h h2 c args st, (callUser n cF h c args st).1.isOof = false →
+    callUser n cT h2 c args st = callUser n cF h c args st
+  tramp : ∀ h h2 c args rec rec2 st, (tramp n cF h c args rec st).1.isOof = false →
+    tramp n cT h2 c args rec2 st = tramp n cF h c args rec st
+  evalDecls : ∀ fr h2 ds st, FrameOk fr → exOof (evalDecls n cF fr ds st).1 = false →
+    evalDecls n cT (fr.atHeight h2) ds st = setH h2 (evalDecls n cF fr ds st)
+
+theorem SimAt.evalF {n} (ih : SimAt n) (fr h2 e st) (hf : FrameOk fr) (h : (Core.eval n cF fr e false st).1.isOof = false) :
+    Core.eval n cT (fr.atHeight h2) e false st = Core.eval n cF fr e false st :=
+  (ih.eval fr h2 e false st hf h).eq_of_false
+
+theorem evalDecls_frame (n : Nat) (cfg : Cfg) (fr : Frame) (ds : List Decl) (st : St) (fr' : Frame) (st' : St)
+    (h : evalDecls n cfg fr ds st = (.ok fr', st')) : fr'.self = fr.self ∧ fr'.height = fr.height := by
+  induction n generalizing fr ds st with
+  | zero => simp [evalDecls] at h
+  | succ n ih =>
+    simp only [evalDecls] at h
+    repeat' split at h
+    all_goals first
+      | (simp at h; done)
+      | (cases h; exact ⟨rfl, rfl⟩)
+      | (have := ih _ _ _ h; exact this)
+
+theorem match_not_tail {x : Res × St} {g : List Val → St → Res × St} (hx : x.1.isTail = false) :
+    (match x with | (.tail a, s) => g a s | r => r) = x := by
+  obtain ⟨r, s⟩ := x
+  cases r <;> first | rfl | (simp at hx)
+
+theorem simAt_zero : SimAt 0 := by
+  constructor <;> intros <;> simp_all [eval, callNamed, builtin, callVal, evalList, mkClos, evalDflts, callUser, tramp, evalDecls]
+
+theorem simAt_succ {n : Nat} (IH : ∀ k, k ≤ n → SimAt k) : SimAt (n + 1) := by
+    have ih := IH n (Nat.le_refl _)
+    constructor
+    case callNamed =>
+      intro fr h2 f args tail st hf h
+      simp only [callNamed] at h ⊢
+      simp only [Frame.atHeight_get]
+      repeat' split at h
+      · simp_all [ih.callVal]
+      · exact (ih.builtin _ _ _ _ _ _ hf h).lift
+    case builtin =>
+      intro fr h2 f args tail st hf h
+      simp only [builtin] at h ⊢
+      repeat' split at h
+      all_goals try (simp_all [ih.evalF, ih.evalList]; done)
+      all_goals (simp [ih.evalF, *]; exact (ih.eval _ _ _ _ _ hf (by simp_all)).lift)
+    case callVal =>
+      intro fr h2 c args tail st hf h
+      simp only [callVal] at h ⊢
+      repeat' split at h
+      all_goals try (simp_all [ih.evalList]; done)
+      simp [ih.evalList, *]
+      exact ih.callUser _ _ _ _ _ h
+    case evalList =>
+      intro fr h2 es st hf h
+      simp only [evalList] at h ⊢
+      repeat' split at h
+      all_goals try (simp_all [ih.evalList, ih.evalF]; done)
+      all_goals trace_state
+      all_goals sorry
+    case mkClos =>
+      intro fr h2 f st hf h
+      simp only [mkClos] at h ⊢
+      repeat' split at h
+      all_goals try (simp_all [ih.evalDflts]; done)
+      all_goals trace_state
+      all_goals sorry
+    case evalDflts =>
+      intro fr h2 ps st hf h
+      simp only [evalDflts] at h ⊢
+      repeat' split at h
+      all_goals try (simp_all [ih.evalDflts, ih.evalF]; done)
+      all_goals trace_state
+      all_goals sorry
+    case callUser =>
+      intro hh h2 c args st h
+      simp only [callUser] at h ⊢
+      repeat' split at h
+      all_goals try (simp_all; done)
+      simp
+      exact ih.tramp _ _ _ _ _ _ _ h
+    case evalDecls =>
+      intro fr h2 ds st hf h
+      simp only [evalDecls] at h ⊢
+      repeat' split at h
+      all_goals try (simp_all [ih.evalF, ih.mkClos]; done)
+      all_goals (
+        simp [ih.evalF, ih.mkClos, *]
+        exact ih.evalDecls { env := _ :: fr.env, self := fr.self, height := fr.height } h2 _ _ hf h)
+    case eval =>
+      intro fr h2 e tail st hf h
+      cases e
+      case call f args =>
+        simp only [eval] at h ⊢
+        simp only [Frame.atHeight_self, Frame.atHeight_env, cT_tco, cF_tco, Bool.and_true, Bool.and_false] at h ⊢
+        cases hs : fr.self with
+        | none => simp only [hs] at h ⊢; exact (ih.callNamed _ _ _ _ _ _ hf h).lift
+        | some p =>
+          obtain ⟨name, c⟩ := p
+          simp only [hs] at h ⊢
+          by_cases h1 : (decide (f = name) && (lookup f fr.env).isNone) = true
+          · simp only [h1, if_true] at h ⊢
+            cases tail with
+            | false =>
+              simp only [Bool.false_eq_true, if_false] at h ⊢
+              exact .inl (ih.callVal _ _ _ _ _ _ hf h)
+            | true =>
+              simp only [if_true, Bool.false_eq_true, if_false] at h ⊢
+              obtain ⟨fn, d, e, rfl⟩ := hf name c hs
+              cases n with
+              | zero => simp [callVal] at h
+              | succ n' =>
+                simp only [callVal] at h ⊢
+                have hx : exOof (evalList n' cF fr args st).1 = false := by
+                  revert h; rcases evalList n' cF fr args st with ⟨r, s⟩; cases r <;> simp
+                have e1 := (IH n' (by omega)).evalList fr h2 args st hf hx
+                have e2 := (fuelLe (cfg := cT) (Nat.le_succ n')).evalList (fr.atHeight h2) args st (by rw [e1]; exact hx)
+                rw [e2, e1]
+                rcases hl : evalList n' cF fr args st with ⟨x, st'⟩
+                rw [hl] at h
+                cases x with
+                | error r => exact .inl rfl
+                | ok vs =>
+                  simp only at h ⊢
+                  refine .inr ⟨rfl, name, _, vs, st', hs, rfl, ?_⟩
+                  cases n' with
+                  | zero => simp [callUser] at h
+                  | succ n'' =>
+                    refine ⟨n'', by omega, ?_⟩
+                    have := (firstErr_none_iff vs).mpr (evalList_ok_noErr _ _ _ _ _ _ _ hl)
+                    simp [callUser, this]
+          · simp only [h1] at h ⊢; exact (ih.callNamed _ _ _ _ _ _ hf h).lift
+      all_goals simp only [eval] at h ⊢
+      all_goals repeat' split at h
+      all_goals (simp_all [ih.evalF, ih.mkClos, ih.evalList, ih.callVal]; done)
+    case tramp =>
+      intro hh h2 c args rec rec2 st h
+      cases c
+      case clos f d env =>
+        simp only [tramp, cT_depth, cF_depth, cT_rec, cF_rec, Bool.false_eq_true, if_false] at h ⊢
+        cases hb : bindParams f.params args d with
+        | none => simp
+        | some ps =>
+          simp only [hb] at h ⊢
+          suffices key : ∀ self : Option (String × Val), (∀ name c, self = some (name, c) → c = Val.clos f d env) →
+              (match evalDecls n cF { env := ps.reverse ++ env, self := self, height := hh + 1 } f.decls st with
+                | (Except.error r, st') => (r, st')
+                | (Except.ok fr', st') =>
+                  match eval n cF fr' f.body true st' with
+                  | (Res.tail newArgs, st'') => tramp n cF hh (Val.clos f d env) newArgs (rec + 1) st''
+                  | r => r).fst.isOof = false →
+              (match evalDecls n cT { env := ps.reverse ++ env, self := self, height := h2 + 1 } f.decls st with
+                | (Except.error r, st') => (r, st')
+                | (Except.ok fr', st') =>
+                  match eval n cT fr' f.body true st' with
+                  | (Res.tail newArgs, st'') => tramp n cT h2 (Val.clos f d env) newArgs (rec2 + 1) st''
+                  | r => r) =
+              (match evalDecls n cF { env := ps.reverse ++ env, self := self, height := hh + 1 } f.decls st with
+                | (Except.error r, st') => (r, st')
+                | (Except.ok fr', st') =>
+                  match eval n cF fr' f.body true st' with
+                  | (Res.tail newArgs, st'') => tramp n cF hh (Val.clos f d env) newArgs (rec + 1) st''
+                  | r => r) by
+            refine key _ ?_ h
+            intro name c hs
+            split at hs
+            · cases hs; rfl
+            · cases hs
+          clear h
+          intro self hself' h
+          have hfok : FrameOk { env := ps.reverse ++ env, self := self, height := hh + 1 } := by
+            intro name c hs
+            exact ⟨_, _, _, hself' name c hs⟩
+          have hx : exOof (evalDecls n cF { env := ps.reverse ++ env, self := self, height := hh + 1 } f.decls st).1 = false := by
+            revert h
+            rcases evalDecls n cF { env := ps.reverse ++ env, self := self, height := hh + 1 } f.decls st with ⟨r, s⟩
+            cases r <;> simp
+          have e1 := ih.evalDecls { env := ps.reverse ++ env, self := self, height := hh + 1 } (h2 + 1) f.decls st hfok hx
+          change evalDecls n cT { env := ps.reverse ++ env, self := self, height := h2 + 1 } f.decls st = _ at e1
+          rw [e1]
+          rcases hd : evalDecls n cF { env := ps.reverse ++ env, self := self, height := hh + 1 } f.decls st with ⟨x, st'⟩
+          rw [hd] at h
+          cases x with
+          | error r => rfl
+          | ok fr' =>
+            simp only [setH_ok] at h ⊢
+            obtain ⟨hs', hh'⟩ := evalDecls_frame _ _ _ _ _ _ _ hd
+            simp only at hs' hh'
+            have hfok' : FrameOk fr' := by intro name c hs; rw [hs'] at hs; exact hfok name c hs
+            have hnt : (eval n cF fr' f.body true st').1.isTail = false :=
+              (noTailAt cF n).eval _ _ _ _ (by simp)
+            have hsim := ih.eval fr' (h2 + 1) f.body true st' hfok'
+            rcases hevF : eval n cF fr' f.body true st' with ⟨rF, sF⟩
+            rw [hevF] at h hnt hsim
+            cases rF
+            case tail => simp at hnt
+            all_goals (
+              simp only at h ⊢
+              rcases hsim h with he | ⟨_, name, c, args1, st1, hsf, heT, k, hk, hkF⟩
+              · rw [he]
+              · rw [heT]
+                simp only
+                rw [hs'] at hsf
+                have hc := hself' name c hsf
+                subst hc
+                rw [hh'] at hkF
+                have hne : (tramp k cF (hh + 1) (Val.clos f d env) args1 0 st1).1.isOof = false := by rw [hkF]; exact h
+                have e2 := (IH k (by omega)).tramp (hh + 1) h2 (Val.clos f d env) args1 0 (rec2 + 1) st1 hne
+                have e3 := (fuelLe (cfg := cT) (show k ≤ n by omega)).tramp h2 (Val.clos f d env) args1 (rec2 + 1) st1 (by rw [e2]; exact hne)
+                rw [e3, e2, hkF])
+      all_goals simp [tramp]
+
+theorem simAt (n : Nat) : SimAt n := by
+  induction n using Nat.strongRecOn with
+  | _ n ih =>
+    cases n with
+    | zero => exact simAt_zero
+    | succ n => exact simAt_succ (fun k hk => ih k (by omega))
+
+
 /-! ### the running example: `fn f(n, acc) { if(n == 0, acc, f(n - 1, acc + n)) }` -/
 
 def sumBody : Expr :=
